@@ -1,6 +1,7 @@
 import PygVerif.Generated
 import PygVerif.Model.Umn
 import PygVerif.Lemmas.Str
+import PygVerif.Lemmas.LinkFile
 /-!
 # C08 — UMN link files, .cap overrides and abstracts have their documented effect
 -/
@@ -273,5 +274,103 @@ example :
 example : processLinkFile (lit "/dir") (lit "/dir") (some (lit "/dir/f")) 10 [lit "Name=Capped\n", lit "Type=X\n"] =
   some [{ e := { selector := lit "/dir/f", name := some (lit "Capped"), type := some (lit "X"), num := none } }] := by
   decide +kernel
+
+/-! ### the reader refines the documented file format (Lemmas/LinkFile)
+
+A link file given as data — blocks of `Key=value` lines (`Umn.Field`), each block closed by a blank
+line — and the reader run on its text. -/
+
+open Pyg.Umn in
+/-- `int(str(n)) == n`: numbers written in a `Port=` or `Numb=` line are read back as written -/
+theorem number_lines_round_trip (n : Int) : parseInt? (toDecInt n) = some n := parseInt_toDecInt n
+
+open Pyg.Umn in
+/-- one well-formed line has exactly its own field's effect on the entry being built -/
+theorem line_applies_its_field (base : Str) (fuel : Nat) (st : LinkState) (f : Field) (hf : f.Ok) (rest : List Str) :
+    getLinkItem base (fuel + 1) st ((f.text ++ [10]) :: rest) = getLinkItem base fuel (f.apply base st) rest :=
+  getLinkItem_field base fuel st f hf rest
+
+open Pyg.Umn in
+/-- **the reader refines the block reading**: for every list of blocks of well-formed lines, reading
+    the rendered file gives, in file order, the entry of each block that has a `Path=` — each block
+    read from a fresh entry (no state crosses the blank line), with any fuel above the block count -/
+theorem linkfile_reader_refines_blocks (dirSel base : Str) (bs : List (List Field))
+    (hbs : ∀ b ∈ bs, ∀ f ∈ b, f.Ok) (fuel : Nat) (hfuel : bs.length < fuel) :
+    processLinkFile dirSel base none fuel (renderFile bs) = some (bs.filterMap (blockEntry dirSel base none)) :=
+  processLinkFile_blocks dirSel base bs hbs fuel hfuel
+
+open Pyg.Umn in
+/-- the fuel the directory handler's model passes (`lines + 1`) is enough -/
+theorem linkfile_reader_fuel_suffices (dirSel base : Str) (bs : List (List Field))
+    (hbs : ∀ b ∈ bs, ∀ f ∈ b, f.Ok) :
+    processLinkFile dirSel base none ((renderFile bs).length + 1) (renderFile bs) =
+      some (bs.filterMap (blockEntry dirSel base none)) := by
+  apply processLinkFile_blocks dirSel base bs hbs
+  induction bs with
+  | nil => simp
+  | cons b bs ih =>
+    have := ih (fun b' hb' => hbs b' (by simp [hb']))
+    rw [renderFile_cons, List.length_append, renderBlock_length]
+    simp only [List.length_cons]; omega
+
+open Pyg.Umn in
+/-- a `.cap` file is one block about its own file -/
+theorem cap_file_is_one_block (dirSel base sel : Str) (fs : List Field) (hfs : ∀ f ∈ fs, f.Ok) (fuel : Nat) :
+    processLinkFile dirSel base (some sel) (fuel + 1) (renderFields fs) =
+      some ((blockEntry dirSel base (some sel) fs).toList) :=
+  processLinkFile_cap dirSel base sel fs hfs fuel
+
+open Pyg.Umn in
+/-- a block without `Path=` in a `.Links` file yields nothing; one in a `.cap` file always yields its entry -/
+theorem block_needs_path (dirSel base : Str) (fs : List Field) (h : ∀ f ∈ fs, f.key ≠ 3) :
+    blockEntry dirSel base none fs = none := by
+  unfold blockEntry finishEntry
+  have : ∀ st : LinkState, st.donePath = false → (applyAll base st fs).donePath = false := by
+    induction fs with
+    | nil => intro st hst; simpa [applyAll] using hst
+    | cons f fs ih =>
+      intro st hst
+      have hf := h f (by simp)
+      have : (f.apply base st).donePath = false := by
+        cases f <;> simp [Field.key] at hf <;> simpa [Field.apply] using hst
+      simpa [applyAll] using ih (fun g hg => h g (by simp [hg])) _ this
+  simp [this (freshLink dirSel none) (by simp [freshLink])]
+
+open Pyg.Umn in
+/-- inside a block the order of lines means nothing as long as no two different lines set the same
+    key: every rearrangement of such a block gives the same entry -/
+theorem field_order_irrelevant (dirSel base : Str) (cap : Option Str) (fs gs : List Field) (hp : fs.Perm gs)
+    (hk : ∀ f ∈ fs, ∀ g ∈ fs, f ≠ g → f.key ≠ g.key ∨ f.key = 0 ∨ g.key = 0) :
+    blockEntry dirSel base cap fs = blockEntry dirSel base cap gs := by
+  unfold blockEntry applyAll
+  congr 1
+  apply List.Perm.foldl_eq' hp
+  intro x hx y hy z
+  by_cases hxy : x = y
+  · subst hxy; rfl
+  · rcases hk x hx y hy hxy with h | h | h
+    · exact apply_comm base z x y (Or.inl h)
+    · exact apply_comm base z x y (Or.inr h)
+    · exact (apply_comm base z y x (Or.inr h)).symm
+
+open Pyg.Umn in
+/-- of two lines with the same key (other than `Path=`, which also raises flags) the later one counts -/
+theorem later_line_wins (base : Str) (st : LinkState) (f g : Field) (h : f.key = g.key) (h0 : f.key ≠ 0)
+    (hp : f.key ≠ 3) : g.apply base (f.apply base st) = g.apply base st :=
+  apply_later_wins base st f g h h0 hp
+
+open Pyg.Umn in
+/-- the manual's sample entry is such a file (the hypotheses are met and the text is the manual's) -/
+example :
+    let b1 : List Field := [.name (lit "Cheese Ball Recipes"), .numb 1, .type 49, .portPlus, .path (lit "/Moo/Cheesy"), .hostPlus]
+    let b2 : List Field := [.name (lit "relative one"), .path (lit "sub/../x"), .type 48]
+    renderFile [b1, b2] =
+      [lit "Name=Cheese Ball Recipes\n", lit "Numb=1\n", lit "Type=1\n", lit "Port=+\n", lit "Path=/Moo/Cheesy\n",
+       lit "Host=+\n", lit "\n", lit "Name=relative one\n", lit "Path=sub/../x\n", lit "Type=0\n", lit "\n"] ∧
+    [b1, b2].filterMap (blockEntry (lit "/dir") (lit "/dir") none) =
+      [{ e := { selector := lit "/Moo/Cheesy", name := some (lit "Cheese Ball Recipes"), num := some 1, type := some (lit "1") } },
+       { e := { selector := lit "/dir/x", name := some (lit "relative one"), num := none, type := some (lit "0") },
+         needsabspath := true }] := by decide +kernel
+
 
 end Pyg.Props.C08
